@@ -69,6 +69,7 @@ SubSeqFrom(s, i) == IF i > Len(s) THEN <<>> ELSE SubSeq(s, i, Len(s))
      k = "D": payload has marker of capture n (cdata:"MARKn;")  data feature
      k = "C": some converter output of the stream is cached (cdata:"CONV:", which only converter output contains)  data feature
      k = "L": last packet not before capture n (ltime)       absolute-time feature
+     k = "B": the client sent the markers of at least n captures (cbytes:..:)   byte counts belong to the data feature
      k = "I": id in s                    (id:..)             id-only feature
      k = "M": id in s, for mark/ and generated/ tags
      k = "R": stream is in tag t         (tag:t)             main-query tag reference
@@ -79,7 +80,9 @@ Def(k, n, s, t) == [k |-> k, n |-> n, s |-> s, t |-> t]
 Refs(d)      == IF d.k \in {"R", "N", "S"} THEN {d.t} ELSE {}
 FeatSub(d)   == d.k = "S"                     \* SubQueryFeatures # 0: invalidated completely (manager.go:605)
 FeatIdOnly(d) == d.k \in {"I", "M"}            \* MainFeatures &^ FeatureFilterID = 0   (manager.go:608)
-FeatData(d)   == d.k \in {"D", "L", "C"}            \* data | absolute time                  (manager.go:614)
+FeatData(d)   == d.k \in {"D", "L", "C", "B"}            \* data | absolute time                  (manager.go:614)
+\* the kinds whose MainFeatures contain FeatureFilterData (payload and byte-count filters): reopened after conversions
+FeatPayload(d) == d.k \in {"D", "C", "B"}
 FeatConvOK(d) == d.k \in {"P", "L", "I", "M"}  \* attachConverterToTag: no data filter, no tag reference
 IsMarkName(n) == \E i \in 1 .. Len(n) : SubSeq(n, 1, i) \in {"mark/", "generated/"}
 
@@ -91,6 +94,7 @@ Eval(d, id, conn, ver, tdM, vis, cvs) ==
       [] d.k = "D" -> d.n \in ver \/ \E v \in cvs : d.n \in v
       [] d.k = "C" -> cvs # {}                      \* only converter output contains "CONV:"
       [] d.k = "L" -> Max(ver) >= d.n
+      [] d.k = "B" -> Cardinality(ver) >= d.n
       [] d.k \in {"I", "M"} -> id \in Range(d.s)
       [] d.k = "R" -> id \in tdM[d.t]
       [] d.k = "N" -> id \notin tdM[d.t]
@@ -398,7 +402,7 @@ ConvDone(pick) ==
         \* streams invalidated while the job ran are invalidated again (the job may have cached their old data)
         ic == InvalidateConv(toConv, cache, during.inv)
         tg1 == Inherit([t \in DOMAIN tags |->
-                    IF tags[t].def.k \in {"D", "C"} THEN [tags[t] EXCEPT !.U = @ \cup conv] ELSE tags[t]], allS)
+                    IF FeatPayload(tags[t].def) THEN [tags[t] EXCEPT !.U = @ \cup conv] ELSE tags[t]], allS)
         du1 == [during EXCEPT !.upd = @ \cup conv, !.inv = {}]
         fl1 == [flags EXCEPT !.conv = FALSE]
         b0 == Bundle(tg1, fl1, [jobs EXCEPT !.conv = NoJob("conv")], use, du1, ic[1])
@@ -425,7 +429,7 @@ Reaches(tg, from, to) ==          \* does tag `from` (transitively) reference `t
     \/ to \in Refs(tg[from].def)
     \/ \E r \in Refs(tg[from].def) \cap DOMAIN tg : Reaches(tg, r, to)
 
-DefValid(d) == d.k \in {"P", "D", "C", "L", "I", "M", "R", "N", "S"}     \* the query parses and is allowed in a tag
+DefValid(d) == d.k \in {"P", "D", "C", "L", "B", "I", "M", "R", "N", "S"}     \* the query parses and is allowed in a tag
 AddTagOK(name, d) ==
     /\ DefValid(d)
     /\ name \notin DOMAIN tags
@@ -453,7 +457,7 @@ Detach(tg, tc, ca, name, cs) ==
 \* The cached output of a converter was dropped (detached from its last tag, reset, executable removed): tags with payload
 \* filters may have matched that output and are evaluated again (manager.go invalidateTagsAfterConverterReset); a tagging
 \* job that is running has searched the old output: the streams go into the updated-during-tagging mask.
-DropTags(tg) == Inherit([t \in DOMAIN tg |-> IF tg[t].def.k \in {"D", "C"} THEN [tg[t] EXCEPT !.U = allS] ELSE tg[t]], allS)
+DropTags(tg) == Inherit([t \in DOMAIN tg |-> IF FeatPayload(tg[t].def) THEN [tg[t] EXCEPT !.U = allS] ELSE tg[t]], allS)
 AfterDrop(b, idx, pick) == StartTag([b EXCEPT !.tags = DropTags(b.tags), !.during.upd = @ \cup allS], idx, pick)
 Dropped(tg, name, cs) == \E c \in cs : OthersWith(tg, name, c) = {}
 
@@ -648,7 +652,7 @@ ViewConvert(v, s, c, pick) ==
        ELSE LET ver == (CHOOSE e \in Visible(views[v].idx) : e[1] = s)[3]
                 hit == {s} \cap allS
                 tg1 == Inherit([t \in DOMAIN tags |->
-                            IF tags[t].def.k \in {"D", "C"} THEN [tags[t] EXCEPT !.U = @ \cup hit] ELSE tags[t]], allS)
+                            IF FeatPayload(tags[t].def) THEN [tags[t] EXCEPT !.U = @ \cup hit] ELSE tags[t]], allS)
                 b0 == Bundle(tg1, flags, jobs, use, [during EXCEPT !.upd = @ \cup hit], toConv)
             IN /\ cache' = [cache EXCEPT ![c] = @ \cup {<<s, ver>>}]
                /\ pick \in TagPicks(tg1, flags)
